@@ -78,6 +78,7 @@ def run_schedule(routines, schedule, args):
     snap = snapshot(args)
     base, count, syms = {}, {}, []
     scribbled = set()
+    held = {}
     for name in schedule:
         try:
             r = routines[name]()
@@ -85,8 +86,13 @@ def run_schedule(routines, schedule, args):
             syms.append('%s#%d/raises-%s' % (name, count.get(name, 0) + 1, type(e).__name__))
             break
         count[name] = count.get(name, 0) + 1
+        for hn, (hr, hs) in held.items():      # results handed out earlier must stay what they were
+            if mutated(hs):
+                syms.append('%s/earlier-result-changed-by-%s' % (hn, name))
+                return syms
         if name not in base:
             base[name] = copy.deepcopy(r)
+            held[name] = (r, snapshot(r))
         elif not same(base[name], r):
             syms.append('%s/%s' % (name, 'result-aliases-state' if scribbled else 'repeat-call-differs'))
             break
